@@ -1,7 +1,8 @@
 """C08 — nonlinear FIBER conserves energy up to loss; SPM closed form; 1-pol == x-pol of 2-pol (partial claim)."""
 ID = 'C08'
 FUNCTIONS = [('devices', 'FIBER')]
-BOUNDS = {'energy law': 'N = 2 samples per polarisation (two polarisations, or one), symbolic field, alpha >= 0, |beta2| >= 1, beta3, gamma > 0, phi_max > 0, L > 0; '
+BOUNDS = {'call-history differential': 'for the blocks of this property registered in vf/history.py (concrete orders / bandwidths / gains / gv configurations, symbolic samples): the call repeated in a session that first ran it with one parameter or one gv setting changed equals the call in a fresh library instance',
+          'energy law': 'N = 2 samples per polarisation (two polarisations, or one), symbolic field, alpha >= 0, |beta2| >= 1, beta3, gamma > 0, phi_max > 0, L > 0; '
                         'adaptive loop unrolled while at most 4 (quick) / 6 (thorough) fft/ifft calls are made (6 = 2 full split steps + the final partial step); deeper paths are cut '
                         'and counted; FFT pairs in contract mode (fresh outputs + Parseval, proved against the exact DFT in C02)',
           'SPM closed form': 'N = 2, exact DFT, beta2 = beta3 = 0 (single step), alpha >= 0, one and two polarisations',
@@ -341,4 +342,6 @@ def configs(tier):
         for pol in (1, 2):
             out.append((f'finite-{kind}-pol{pol}', scen_finite, dict(kind=kind, pol=pol), {'validate': 1, 'limits': {'feas_timeout_ms': 1000}}))
     out.append(('noise-passthrough', scen_noise, {}, {}))
+    from vf import history as _history        # call-history differential of this property's blocks (vf/history.py)
+    out += _history.configs_for('C08')
     return out
